@@ -26,8 +26,10 @@ def main():
              "label": "3 proxies x 1 client, the last proxy optionally polling under the first one's (still pending) session id: " + U},
             {"harness": "c03", "cfg": {"P": "2", "C": "2", "pnat": "3", "loads": "2", "cnat": "3", "dup": "1"}, "budget_s": 30,
              "label": "2 proxies (optionally one session id) x 2 clients: " + U},
+            {"harness": "c03", "cfg": {"P": "2", "C": "2", "pnat": "3", "loads": "2", "cnat": "3", "fp": "2"}, "budget_s": 30,
+             "label": "2 proxies x 2 clients, the first optionally naming a bridge that is not listed: " + U},
         ]
-        total = 150
+        total = 180
     else:
         passes = [
             {"harness": "c03", "cfg": {"P": "2", "C": "1"}, "budget_s": 100, "label": "2 proxies x 1 client, full alphabets: " + U},
@@ -36,8 +38,9 @@ def main():
             {"harness": "c03", "cfg": {"P": "3", "C": "2", "pnat": "3", "loads": "2", "cnat": "3"}, "budget_s": 250, "label": "3 proxies x 2 clients: " + U},
             {"harness": "c03", "cfg": {"P": "3", "C": "1", "pnat": "4", "loads": "3", "cnat": "3", "dup": "1"}, "budget_s": 200, "label": "3 proxies x 1 client, optionally a repeated session id: " + U},
             {"harness": "c03", "cfg": {"P": "3", "C": "2", "pnat": "3", "loads": "2", "cnat": "3", "dup": "1"}, "budget_s": 250, "label": "3 proxies x 2 clients, optionally a repeated session id: " + U},
+            {"harness": "c03", "cfg": {"P": "3", "C": "2", "pnat": "3", "loads": "2", "cnat": "3", "fp": "2"}, "budget_s": 250, "label": "3 proxies x 2 clients, the first optionally naming an unlisted bridge: " + U},
         ]
-        total = 1300
+        total = 1550
     summary, tot, samples, exh = sched.run_passes(rep, binary, passes, total)
     sched.sched_coverage(rep, summary, tot, samples, exh)
     rep.assumptions += [
